@@ -4,4 +4,9 @@ set -e
 ROOT=$(cd "$(dirname "$0")" && pwd)
 export CARGO_NET_OFFLINE=true
 cd "$ROOT/harness" && cargo build --release --offline --bin pv
+cd "$ROOT/featbin"
+for FS in "none:" "pt:package-type" "default:package-type,smartstring" "serde:package-type,smartstring,serde"; do
+    N=${FS%%:*}; F=${FS#*:}
+    cargo build --release --offline --no-default-features --features "$F" --target-dir "target/$N"
+done
 echo "setup ok"
